@@ -1,4 +1,5 @@
 import gfapy
+import re
 
 class NumericArray(list):
   """
@@ -191,6 +192,19 @@ class NumericArray(list):
     subtype = elems[0]
     if subtype not in NumericArray.SUBTYPE:
       raise gfapy.TypeError("Subtype {} unknown".format(subtype))
+    if not valid:
+      if len(elems) < 2:
+        raise gfapy.FormatError("Numeric array string contains no values\n"+
+          "String: {}".format(string))
+      # int() and float() accept more than the GFA grammar
+      if subtype == "f":
+        elem_re = r"^[-+]?[0-9]*\.?[0-9]+([eE][-+]?[0-9]+)?$"
+      else:
+        elem_re = r"^[-+]?[0-9]+$"
+      for e in elems[1:]:
+        if not re.match(elem_re, e):
+          raise gfapy.ValueError("Value is not valid: {}\n".format(e)+
+              "Numeric array string: {}".format(string))
     if subtype != "f":
       range = NumericArray.SUBTYPE_RANGE[subtype]
     def gen():
